@@ -14,6 +14,32 @@ use copia::{
     StrongHash, SyncBuilder,
 };
 use serde_json::{json, Value};
+use std::alloc::{GlobalAlloc, Layout, System};
+use std::sync::atomic::{AtomicUsize, Ordering};
+
+/// allocation-tracking allocator: the largest single request since the last reset (for the C20 allocation bound)
+struct Tracking;
+static MAX_REQ: AtomicUsize = AtomicUsize::new(0);
+unsafe impl GlobalAlloc for Tracking {
+    unsafe fn alloc(&self, l: Layout) -> *mut u8 {
+        MAX_REQ.fetch_max(l.size(), Ordering::Relaxed);
+        if l.size() > (1usize << 33) { return std::ptr::null_mut(); }
+        System.alloc(l)
+    }
+    unsafe fn dealloc(&self, p: *mut u8, l: Layout) { System.dealloc(p, l) }
+    unsafe fn alloc_zeroed(&self, l: Layout) -> *mut u8 {
+        MAX_REQ.fetch_max(l.size(), Ordering::Relaxed);
+        if l.size() > (1usize << 33) { return std::ptr::null_mut(); }
+        System.alloc_zeroed(l)
+    }
+    unsafe fn realloc(&self, p: *mut u8, l: Layout, n: usize) -> *mut u8 {
+        MAX_REQ.fetch_max(n, Ordering::Relaxed);
+        if n > (1usize << 33) { return std::ptr::null_mut(); }
+        System.realloc(p, l, n)
+    }
+}
+#[global_allocator]
+static GLOBAL: Tracking = Tracking;
 
 #[path = "/repo/src/bin/copia/plan.rs"]
 mod plan;
@@ -193,7 +219,13 @@ fn mk_delta(case: &Value) -> Delta {
     }
     if let Some(of) = d.get("checksum_of") {
         // checksum := real BLAKE3 of the given bytes (models found under the hash shim are re-keyed)
-        delta.checksum = StrongHash::compute(&bytes_of(of));
+        let mut h = *StrongHash::compute(&bytes_of(of)).as_bytes();
+        if let Some(fl) = d.get("checksum_flip").and_then(Value::as_array) {
+            for i in fl {
+                h[i.as_u64().unwrap() as usize] ^= 0xFF;
+            }
+        }
+        delta.checksum = StrongHash::from_bytes(h);
     } else {
         let ck = unhex(d["checksum"].as_str().unwrap());
         let mut a = [0u8; 32];
@@ -318,6 +350,67 @@ fn run_case(case: &Value) -> Value {
             let r = reconcile::reconcile(&fpmap(&case["a"]), &fpmap(&case["b"]), &fpmap(&case["base"]), case["trust_base"].as_bool().unwrap());
             json!({"result": r.iter().map(|(p, a)| json!([p.to_string_lossy(), format!("{a:?}")])).collect::<Vec<_>>()})
         }
+        "codec_read_hostile" => {
+            // the given 12-byte header followed by a family of hostile payloads; reports panics, acceptance and the
+            // largest single allocation request made while reading
+            let hdr = bytes_of(&case["header"]);
+            let declared = u32::from_le_bytes([hdr[4], hdr[5], hdr[6], hdr[7]]) as usize;
+            let plen = declared.min(1 << 16);
+            let mut payloads: Vec<Vec<u8>> = Vec::new();
+            payloads.push(vec![0u8; plen]);
+            payloads.push(vec![0xFFu8; plen]);
+            // bincode: enum tag (u32) then fields; hostile length prefixes for String / Vec fields
+            for tag in 0u32..7 {
+                for lenpfx in [u64::MAX, 1u64 << 26, 1u64 << 34] {
+                    let mut p = Vec::new();
+                    p.extend_from_slice(&tag.to_le_bytes());
+                    p.extend_from_slice(&7u64.to_le_bytes());
+                    p.extend_from_slice(&lenpfx.to_le_bytes());
+                    p.extend_from_slice(&lenpfx.to_le_bytes());
+                    p.resize(plen.max(p.len()), 0);
+                    p.truncate(plen.max(28));
+                    payloads.push(p);
+                }
+            }
+            let mut any_ok = false;
+            let mut max_alloc = 0usize;
+            let mut input_len = 0usize;
+            // acceptance probe: the same header fields (magic, type, version, flags) in front of a VALID payload of that type
+            if declared <= 16 * 1024 * 1024 {
+                use copia::Message;
+                let valid: Option<Message> = match hdr[8] {
+                    1 => Some(Message::SignatureRequest { file_id: 1, block_size: 2048 }),
+                    4 => Some(Message::Ack { file_id: 1, success: true, message: None }),
+                    5 => Some(Message::Error { code: 1, message: "x".into() }),
+                    6 => Some(Message::Ping { seq: 7 }),
+                    7 => Some(Message::Pong { seq: 7 }),
+                    _ => None,
+                };
+                if let Some(m) = valid {
+                    let p = m.encode().unwrap();
+                    let mut wire = hdr.clone();
+                    wire[4..8].copy_from_slice(&(p.len() as u32).to_le_bytes());
+                    wire.extend_from_slice(&p);
+                    any_ok |= copia::Codec::new().read_message(&mut Cursor::new(&wire)).is_ok();
+                }
+            }
+            for p in payloads {
+                let mut wire = hdr.clone();
+                wire.extend_from_slice(&p);
+                input_len = wire.len();
+                let mut codec = copia::Codec::new();
+                MAX_REQ.store(0, Ordering::Relaxed);
+                let r = codec.read_message(&mut Cursor::new(&wire));
+                max_alloc = max_alloc.max(MAX_REQ.load(Ordering::Relaxed));
+                any_ok |= r.is_ok();
+                let mut codec0 = copia::Codec::default();
+                MAX_REQ.store(0, Ordering::Relaxed);
+                let r0 = codec0.read_message(&mut Cursor::new(&wire));
+                max_alloc = max_alloc.max(MAX_REQ.load(Ordering::Relaxed));
+                any_ok |= r0.is_ok();
+            }
+            json!({"any_ok": any_ok, "max_alloc": max_alloc, "input_len": input_len})
+        }
         "signature_check" => {
             // Signature::generate vs an independent sequential reference (definition digest + the blake3 crate directly)
             let n = case["n"].as_u64().unwrap() as usize;
@@ -351,7 +444,13 @@ fn run_case(case: &Value) -> Value {
             // start from a known, different mtime
             let t0 = std::time::UNIX_EPOCH + std::time::Duration::from_secs(1_234_567);
             std::fs::File::options().write(true).open(&f).unwrap().set_modified(t0).unwrap();
-            let r = bin_meta::meta::set_local_mtime(&f, secs);
+            let r = if let Some(ns) = case.get("raw_ns").and_then(Value::as_u64) {
+                // set (secs, nanos) directly through std: exercises copia's read side (mtime_secs) on a sub-second mtime
+                let t = std::time::UNIX_EPOCH + std::time::Duration::new(secs as u64, ns as u32);
+                std::fs::File::options().write(true).open(&f).and_then(|fh| fh.set_modified(t))
+            } else {
+                bin_meta::meta::set_local_mtime(&f, secs)
+            };
             let m = bin_meta::meta::discover_local_with_meta(&dir).unwrap();
             let after = m.get(&PathBuf::from("f")).map(|x| x.mtime);
             let _ = std::fs::remove_dir_all(&dir);
